@@ -6,6 +6,7 @@ mod childrun;
 mod codec;
 mod e2e;
 mod e2epub;
+mod e2ereq;
 mod fanout;
 mod mock;
 mod pubsub;
@@ -55,6 +56,7 @@ fn main() {
         "pubsub" => pubsub::run(&cfg),
         "reqrep" => reqrep::run(&cfg),
         "e2epub" => e2epub::run(&cfg),
+        "e2ereq" => e2ereq::run(&cfg),
         other => { eprintln!("unknown suite {other}"); std::process::exit(2); }
     }
 }
